@@ -84,35 +84,16 @@ def showRead : Except LoadErr (List Nat) → String
 def maxFile : Nat := 200000
 
 /-- Whole path of `Model::load*` for one `uint8` initializer with `dims = [dimLen]`:
-`external_data_location` parsing, allow-list, file lookup, loader range check, and the
-final length-vs-shape check of `load_constant`.
+`loadExternal` of the model (`external_data_location` parsing, allow-list, file lookup,
+loader range check) followed by the length-vs-shape check of `load_constant`.
 `flen = none` means no file of that name exists in the model directory. -/
 def loadAll (loader : String) (loc offS lenS : List Nat) (flen : Option Nat) (dimLen : Nat) : String :=
-  match parseU64 offS with
-  | none => "err:badoffset"
-  | some off =>
-    match parseU64 lenS with
-    | none => "err:badlength"
-    | some len =>
-      -- FileLoader checks the length before looking at the path
-      if loader = "file" ∧ len > ISIZE_MAX then "err:invalidlength"
-      else if !allowed loc then "err:disallowed"
-      else match flen with
-        | none => showErr .notFound
-        | some fl =>
-          let file := fileOf fl
-          let res : Except LoadErr (List Nat) :=
-            if loader = "file" then fileRead file off len
-            else
-              let r := if loader = "mmap" then mmapRange off len fl else memRange off len fl
-              match r with
-              | .error e => .error e
-              | .ok rg => match sliceOf file rg with
-                | some bs => .ok bs
-                | none => .error .io
-          match res with
-          | .error e => showErr e
-          | .ok bs => if bs.length = dimLen then s!"ok {bs.length} {checksum bs}" else "err:shape"
+  let ld : Loader := if loader = "file" then .file else if loader = "mmap" then .mmap else .mem
+  match loadExternal ld (fun _ => flen.map fileOf) loc offS lenS with
+  | .error .badOffset => "err:badoffset"
+  | .error .badLength => "err:badlength"
+  | .error (.load e) => showErr e
+  | .ok bs => if bs.length = dimLen then s!"ok {bs.length} {checksum bs}" else "err:shape"
 
 def handle (line : String) : String :=
   match words line with
